@@ -134,7 +134,7 @@ def path_cases(tier, rng):
         ops = temporal_graph(rng, nn, tm, bool(d), p=rng.choice([0.15, 0.25, 0.35]), loops=(rng.random() < 0.15))
         if rng.random() < 0.3:
             ops = [[o[0], o[1], o[2], o[3] * 2 + 3, None if o[4] is None else o[4] * 2 + 3] for o in ops]   # gaps between ids
-        sh = rng.choice([0, 0, 0, 8, 97, -3, -11])      # ids whose decimal strings have mixed lengths / signs
+        sh = rng.choice([0, 0, 0, 8, 97, -3, -11, -1000, 2 ** 55])      # ids whose decimal strings have mixed lengths / signs, beyond float precision
         if sh:
             ops = [[o[0], o[1], o[2], o[3] + sh, None if o[4] is None else o[4] + sh] for o in ops]
         yield hist_case(d, True, ops, ids=("str", "ustr", "int", "int", "int")[i % 5], src="rand")
@@ -450,7 +450,8 @@ class C15(PathsBase):
 def random_paths(rng):
     k = rng.choice([1, 1, 2, 3, 4, 5, 7])
     paths = []
-    base = rng.choice([0, 0, 0, 1700000000, 3 * 10 ** 12])   # epoch-scale timestamps must not create ties
+    # epoch-scale timestamps (seconds, milliseconds, nanoseconds, beyond 2**53) must not create ties
+    base = rng.choice([0, 0, 0, 1700000000, 3 * 10 ** 12, 1700000000 * 10 ** 9, 2 ** 62])
     if rng.random() < 0.25:
         # several distinct paths sharing their first and last hop
         a, z, t0 = 1, 9, base + rng.randint(0, 3)
